@@ -4,7 +4,7 @@
    executable IEEE model; decode side: model/Convert.v.  The implementation (which picks copy / colour-convert /
    universal variants per input) is compared with this model byte for byte on all 35 pixel formats. *)
 From Coq Require Import ZArith List Bool Lia.
-From DDSV Require Import model.Float model.Convert model.Encode spec.SpecNum proofs.EncodeProofsA proofs.EncodeProofsB proofs.EncodeProofsC proofs.FloatMono proofs.QuantProofs proofs.QuantProofs16.
+From DDSV Require Import model.Float model.Convert model.Encode spec.SpecNum proofs.EncodeProofsA proofs.EncodeProofsB proofs.EncodeProofsC proofs.FloatMono proofs.QuantProofs proofs.QuantProofs16 proofs.QuantProofsSmall.
 Import ListNotations.
 Local Open Scope Z_scope.
 
@@ -43,9 +43,26 @@ Proof. exact n8_from_between. Qed.
 Theorem C12_f32_into_unorm16 : forall b k, 0 <= b < LIM -> 1 <= k <= 65535 ->
   (b < T16 k -> n16_from b <= k - 1) /\ (T16 k <= b -> k <= n16_from b) /\ Z.abs (T16 k - ideal_boundary 65535 k) <= 1.
 Proof. exact n16_from_spec. Qed.
+(* the narrow UNORM fields (2, 4, 5, 6, 10 bits): (x.min(1.0) * max + 0.5) as integer, same statement *)
+Theorem C12_f32_into_n2 : forall b k, 0 <= b < LIM -> 1 <= k <= 3 ->
+  (b < Tf 3 255 k -> n2_from b <= k - 1) /\ (Tf 3 255 k <= b -> k <= n2_from b) /\ Z.abs (Tf 3 255 k - ideal_boundary 3 k) <= 1.
+Proof. exact n2_from_spec. Qed.
+Theorem C12_f32_into_n4 : forall b k, 0 <= b < LIM -> 1 <= k <= 15 ->
+  (b < Tf 15 255 k -> n4_from b <= k - 1) /\ (Tf 15 255 k <= b -> k <= n4_from b) /\ Z.abs (Tf 15 255 k - ideal_boundary 15 k) <= 1.
+Proof. exact n4_from_spec. Qed.
+Theorem C12_f32_into_n5 : forall b k, 0 <= b < LIM -> 1 <= k <= 31 ->
+  (b < Tf 31 255 k -> n5_from b <= k - 1) /\ (Tf 31 255 k <= b -> k <= n5_from b) /\ Z.abs (Tf 31 255 k - ideal_boundary 31 k) <= 1.
+Proof. exact n5_from_spec. Qed.
+Theorem C12_f32_into_n6 : forall b k, 0 <= b < LIM -> 1 <= k <= 63 ->
+  (b < Tf 63 255 k -> n6_from b <= k - 1) /\ (Tf 63 255 k <= b -> k <= n6_from b) /\ Z.abs (Tf 63 255 k - ideal_boundary 63 k) <= 1.
+Proof. exact n6_from_spec. Qed.
+Theorem C12_f32_into_n10 : forall b k, 0 <= b < LIM -> 1 <= k <= 1023 ->
+  (b < Tf 1023 65535 k -> n10_from b <= k - 1) /\ (Tf 1023 65535 k <= b -> k <= n10_from b) /\ Z.abs (Tf 1023 65535 k - ideal_boundary 1023 k) <= 1.
+Proof. exact n10_from_spec. Qed.
 
 Example C12_ex : encode_px 6 (to_rgba_f32 3 0 [255; 128; 0; 255]) = [0; 252] /\ encode_px 21 (to_rgba_f32 0 1 [45772]) = le_bytes 4 (715 + Z.shiftl 715 10 + Z.shiftl 715 20 + Z.shiftl 3 30).
 Proof. split; vm_compute; reflexivity. Qed.
 
-Definition C12_all := (C12_roundtrip_u8, C12_roundtrip_u16, C12_quantise_u8, C12_quantise_u16, C12_f32_into_unorm8, C12_f32_into_unorm8_between, C12_f32_into_unorm16).
+Definition C12_all := (C12_roundtrip_u8, C12_roundtrip_u16, C12_quantise_u8, C12_quantise_u16, C12_f32_into_unorm8, C12_f32_into_unorm8_between, C12_f32_into_unorm16,
+  C12_f32_into_n2, C12_f32_into_n4, C12_f32_into_n5, C12_f32_into_n6, C12_f32_into_n10).
 Redirect "props/C12.assumptions" Print Assumptions C12_all.
